@@ -11,7 +11,7 @@ git -C /repo worktree add -q --detach "$W" HEAD || exit 2
 cleanup() { git -C /repo worktree remove --force "$W" >/dev/null 2>&1; rm -rf "$W"; }
 trap cleanup EXIT
 cd "$W" || exit 2
-RES="$D/eval.txt"; : > "$RES"
+RES="$D/${EVAL_NAME:-eval.txt}"; : > "$RES"
 if ! git apply "$D/patch.diff" 2>>"$RES"; then echo "PATCH-DOES-NOT-APPLY" | tee -a "$RES"; exit 3; fi
 if ! go1.26.8 build ./... >>"$RES" 2>&1; then echo "BUILD-FAILS" | tee -a "$RES"; exit 3; fi
 if go1.26.8 test -vet=off -count=1 ./... >>"$RES" 2>&1; then echo "suite: pass with patch" | tee -a "$RES"; else
